@@ -16,8 +16,11 @@ for fl in ('MEMB', 'MB', 'BP'):
             name='C19.O1.%s.%s' % (fl.lower(), what), harness=R, entry=entry, defines=d, mode='legacy', replace=('sig_handler',) + fut, unwind=1,
             min_covers=2, checks=CK2, timeout=300, functions=(pre + 'read_lock', pre + 'read_unlock', 'urcu_common_wake_up_gp'),
             desc='%s: %s interrupted before every shared access (incl. between the plain read of the reader word and the store derived from it) by handlers satisfying the handler contract, while the updater flips the phase / arms the futex: the interrupted call keeps its postcondition (nesting +-1, phase kept / snapshot of gp.ctr)' % (fl.lower(), what)))
+# bp: a handler that registers the thread inside urcu_bp_register (shared with C15.O5; bounded, reported apart)
+from obligations import C15 as _c15
+OBLIGATIONS += [o for o in _c15.OBLIGATIONS if o.name in ('C15.O5.bp_register_signal', 'C15.O5.bp_register_already')]
 META = {
-    'level': 'proof',
+    'level': 'proof', 'bounded_apart': True,
     'trusted_base': ['CBMC 6.11 (dfcc, recursive contract enforcement, contract replacement)', 'sequential meaning of the primitives', 'futex system-call stub'],
     'assumptions': ['atomicity below one C-level access (aligned word moves on x86) is assumed', 'the handler\'s critical section gets the C01 guarantee (not re-proved here)',
                     'nesting depth stays below the documented limit (nest part of the reader word does not overflow into the phase bit)'],
